@@ -161,8 +161,8 @@ mjd2ht(const unsigned int *cal, size_t nm, mjd_t d)
 	unsigned int m;
 
 	for (i = 0U; i < nm && MT(cal)[i] <= d; i++);
-	if (UNLIKELY(i >= nm)) {
-		/* that's beyond our time */
+	if (UNLIKELY(i >= nm || !i)) {
+		/* that's beyond (or before) our time */
 		goto nil;
 	}
 	/* M is the month count */
@@ -199,7 +199,8 @@ __ndim_ht(const unsigned int *cal, size_t nm, unsigned int y, unsigned int m)
 /* return the number of days in (hijri) month M in (hijri) year Y. */
 	const unsigned int i = (y - 1U) * 12U + (m - 1U) - SM(cal);
 
-	if (UNLIKELY(i + 1U >= nm)) {
+	if (UNLIKELY(i >= nm - 1U)) {
+		/* beyond the table, or before it (I has wrapped around) */
 		return 0U;
 	}
 	return MT(cal)[i + 1U] - MT(cal)[i + 0U];
